@@ -58,6 +58,15 @@ def enumerate_history(args):
                 found += [("C04",) + x for x in crashrig.check_snapshot(table, markers, r)]
             if which in ("C05", "both"):
                 found += [("C05",) + x for x in crashrig.check_meta(table, markers, r)]
+            # a crash between a record write and the write of the log file's index entry that belongs to it: the recovered store is
+            # driven on (one index interval of further appends, quiescent reopen)
+            nxt = next((kinds[j] for j in range(k + 1, len(recs)) if kinds[j] != "marker"), None)
+            if which in ("C04", "both") and rec[0] != "M" and kinds[k] == "log-data" and nxt == "log-index-area" and r.get("recovered") and ("cont", dg) not in cache:
+                img.materialise(idir)
+                cache[("cont", dg)] = crashrig.continue_after_recovery(idir)
+                res["continuations"] = res.get("continuations", 0) + 1
+                if cache[("cont", dg)]:
+                    found.append(("C04",) + cache[("cont", dg)])
             for prop, clause, detail in found:
                 inflight = None
                 if markers and markers[-1].startswith("S"):
@@ -170,6 +179,7 @@ def drive(pid, tier, seed, which, profile_mix, rule):
             agg["crash_images_evaluated"] += r["images"]
             agg["distinct_directory_images_recovered"] += r["distinct_images"]
             agg["file_mutations_journaled"] += r["mutations"]
+            agg["continuations_after_recovery"] = agg.get("continuations_after_recovery", 0) + r.get("continuations", 0)
             for k, v in r["windows"].items():
                 agg["window_histogram"][k] = agg["window_histogram"].get(k, 0) + v
                 out.shape("%s/%s" % (k, "+".join(f for f in r["features"] if f in ("truncate", "snapshot+pointer", "reopen")) or "plain"))
